@@ -99,6 +99,17 @@ impl<S> MergeUnbounded<S> {
     }
 }
 
+#[cfg(futures_buffered_verif)]
+impl<S> MergeUnbounded<S> {
+    /// Verification only: `(capacity, len, waker block address)` of every internal group.
+    pub fn verif_groups(&self) -> Vec<(usize, usize, usize)> {
+        self.groups
+            .iter()
+            .map(|g| (g.streams.capacity(), g.streams.len(), g.streams.verif_block()))
+            .collect()
+    }
+}
+
 impl<S: Stream + Unpin> Stream for MergeUnbounded<S> {
     type Item = S::Item;
 
